@@ -14,6 +14,9 @@ pub struct RunOpts {
     pub allow: Vec<String>,
     pub verbose: bool,
     pub sarif: Option<PathBuf>,
+    /// instead of removing an existing SARIF file before the run, fill it with a long stale text
+    /// (the run must replace it completely; an untouched file counts as `not written`)
+    pub stale_sarif: bool,
     pub cpu_secs: u64,
     pub rust_log: Option<String>,
     pub cwd: Option<PathBuf>,
@@ -105,12 +108,16 @@ pub fn run(bin: &Path, opts: &RunOpts) -> Result<RunOut, String> {
             Ok(())
         });
     }
+    let stale: String = "{ \"stale\": \"".to_string() + &"x".repeat(200_000) + "\" }\n";
     if let Some(s) = &opts.sarif {
         let _ = std::fs::remove_file(s);
+        if opts.stale_sarif {
+            let _ = std::fs::write(s, &stale);
+        }
     }
     let out = cmd.output().map_err(|e| format!("cannot spawn {}: {e}", bin.display()))?;
     let stdout_utf8 = std::str::from_utf8(&out.stdout).is_ok();
-    let sarif_text = opts.sarif.as_ref().and_then(|p| std::fs::read_to_string(p).ok());
+    let sarif_text = opts.sarif.as_ref().and_then(|p| std::fs::read_to_string(p).ok()).filter(|t| !(opts.stale_sarif && *t == stale));
     Ok(RunOut {
         status: out.status.code(),
         signal: out.status.signal(),
@@ -259,6 +266,9 @@ fn sarif_loc(l: &Value) -> (String, u64, u64, u64, u64) {
 pub struct SarifDoc {
     pub results: Vec<SarifResult>,
     pub rule_ids: Vec<String>,
+    /// every region with its optional offset/length fields: (uri, startLine, startColumn, endLine,
+    /// endColumn, charOffset, charLength, byteOffset, byteLength)
+    pub regions: Vec<(String, u64, u64, u64, u64, Option<u64>, Option<u64>, Option<u64>, Option<u64>)>,
 }
 
 pub fn parse_sarif(text: &str) -> Result<SarifDoc, String> {
@@ -266,11 +276,19 @@ pub fn parse_sarif(text: &str) -> Result<SarifDoc, String> {
     let runs = v["runs"].as_array().ok_or("SARIF: no runs")?;
     let mut results = Vec::new();
     let mut rule_ids = Vec::new();
+    let mut regions = Vec::new();
     for run in runs {
         for r in run["tool"]["driver"]["rules"].as_array().cloned().unwrap_or_default() {
             rule_ids.push(r["id"].as_str().unwrap_or("").to_string());
         }
         for r in run["results"].as_array().cloned().unwrap_or_default() {
+            for key in ["locations", "relatedLocations"] {
+                for l in r[key].as_array().cloned().unwrap_or_default() {
+                    let (uri, a, b, c, d) = sarif_loc(&l);
+                    let reg = &l["physicalLocation"]["region"];
+                    regions.push((uri, a, b, c, d, reg["charOffset"].as_u64(), reg["charLength"].as_u64(), reg["byteOffset"].as_u64(), reg["byteLength"].as_u64()));
+                }
+            }
             results.push(SarifResult {
                 rule_id: r["ruleId"].as_str().unwrap_or("").to_string(),
                 level: r["level"].as_str().unwrap_or("").to_string(),
@@ -283,7 +301,7 @@ pub fn parse_sarif(text: &str) -> Result<SarifDoc, String> {
             });
         }
     }
-    Ok(SarifDoc { results, rule_ids })
+    Ok(SarifDoc { results, rule_ids, regions })
 }
 
 /// 1-based (line, column-in-chars) of a byte offset in `src`, the way
